@@ -219,7 +219,7 @@ void pbt_generate(Rng& r, int size, Case& c) {
     long form = r.weighted(FW, 6);
     long streams = (long)r.below(8) | (r.chance(18) ? 8 : 0);
     static const int EW[] = {55, 15, 15, 15};
-    long mode = (long)r.below(3) | ((long)r.weighted(EW, 4) << 2) | ((long)r.below(16) << 4) | ((long)r.below(4) << 8) | ((long)r.below(2) << 10) | ((long)r.below(2) << 11) | ((long)(r.chance(12) ? 1 : 0) << 12);
+    long mode = (long)r.below(3) | ((long)r.weighted(EW, 4) << 2) | ((long)r.below(16) << 4) | ((long)r.below(4) << 8) | ((long)r.below(2) << 10) | ((long)r.below(2) << 11) | ((long)(r.chance(12) ? 1 : 0) << 12) | ((long)(r.below(800) == 0 ? 1 : 0) << 13);   // bit 13: a child that stays silent for more than a second before it writes
     long code = r.chance(25) ? (long)(r.chance(50) ? 0 : 255) : (long)r.below(256);
     c.add("run", form, streams, code, mode);
   }
@@ -274,9 +274,12 @@ void runOne(const Op& op, Pending& pd, Ctx& ctx, Process*& kept) {
   if (echoOut || echoErr) ctx.label("echo");
   if (inR) ctx.label("stdin_redirected");
 
+  // a child that is silent for 1.3 s before it writes: reading its output has to wait through that, however the wait is sliced
+  bool slowChild = ((mode >> 13) & 1) && !noRead && !hang && !useStart && form != 5 && (streams & (Process::stdoutStream | Process::stderrStream));
+  if (slowChild) ctx.label("child_silent_for_more_than_a_second");
   // ---- argument vector
   char ctl[160];
-  snprintf(ctl, sizeof ctl, "x%ld,i%d,O%d,E%d,o%zu,e%zu,f%d,h%d%s", code, inR && !hang ? 1 : 0, (int)echoOut, (int)echoErr, no, ne, (int)errFirst, (int)hang, noRead ? ",w30" : "");
+  snprintf(ctl, sizeof ctl, "x%ld,i%d,O%d,E%d,o%zu,e%zu,f%d,h%d%s", code, inR && !hang ? 1 : 0, (int)echoOut, (int)echoErr, no, ne, (int)errFirst, (int)hang, noRead ? ",w30" : slowChild ? ",w1300" : "");
   std::vector<std::string> expArgv;
   bool freeBackslash = false;
   expArgv.push_back(g_child);
